@@ -25,7 +25,10 @@ from vlib import common
 SV_NORM = 10.0       # |norm - 1|            <= SV_NORM * steps * tol          (observed <= 3e-4)
 SV_ENERGY = 10.0     # |E - E0| / scale      <= SV_ENERGY * steps * tol        (observed <= 4e-5; <H^2>: 2e-2)
 MPS_NORM = 1.0       # |norm - 1|            <= MPS_NORM * steps * precision   (observed <= 1e-9)
-MPS_ENERGY = 1.0     # |E - E0| / scale      <= MPS_ENERGY * steps * precision (observed <= 2e-6; <H^2>: 1e-3)
+MPS_ENERGY = 1e-3    # |E - E0| / scale      <= 1e-11 + MPS_ENERGY * steps * precision   (observed <= 8e-6 * steps * precision)
+MPS_ENERGY2 = 0.1    # |<H^2> - <H^2>0| / scale^2 <= 5e-7 + MPS_ENERGY2 * steps * precision (observed <= 1e-2 * steps * precision;
+                     # the floor is the fixed 1e-5 compression of the H^2 operator, observed <= 4e-8 at precision 1e-7)
+MPS_E_FLOOR, MPS_E2_FLOOR = 1e-11, 5e-7
 FLOOR = 1e-6         # absolute floor: torch.linalg.matrix_exp / rounding level effects (observed <= 6e-9) x >100
 
 PINS = {
@@ -201,13 +204,18 @@ def check_case(ctx, case):
     unit = steps * case["tol"]
     sv = case["backend"] == "sv"
     lim_n = FLOOR + (SV_NORM if sv else MPS_NORM) * unit
-    lim_e = FLOOR + (SV_ENERGY if sv else MPS_ENERGY) * unit
+    lim_e = (FLOOR + SV_ENERGY * unit) if sv else (MPS_E_FLOOR + MPS_ENERGY * unit)
+    lim_e2 = lim_e if sv else (MPS_E2_FLOOR + MPS_ENERGY2 * unit)
     cal = ctx.extra.setdefault("calibration", {})
+    fam = case.get("family")
     for k, v in (("norm", m["norm"]), ("dE", m["dE"]), ("dE2", m["dE2"])):
-        key = f"{case['backend']}:{k}/(steps*tol)"
+        key = f"{case['backend']}{'-' + fam if fam else ''}:{k}/(steps*tol)"
         cal[key] = max(cal.get(key, 0.0), v / unit)
     cal[f"{case['backend']}:antihermiticity_defect"] = max(cal.get(f"{case['backend']}:antihermiticity_defect", 0.0), probe.worst)
-    ctx.count_case({"backend": case["backend"], "n": case["prob"]["n"], "steps": steps, "windows": case["windows"],
+    if fam:
+        cal[f"mps-{fam}:dE (relative to scale)"] = max(cal.get(f"mps-{fam}:dE (relative to scale)", 0.0), m["dE"])
+        cal[f"mps-{fam}:dE2 (relative to scale^2)"] = max(cal.get(f"mps-{fam}:dE2 (relative to scale^2)", 0.0), m["dE2"])
+    ctx.count_case({"backend": case["backend"], "family": fam, "xy": bool(case["prob"].get("xy")), "n": case["prob"]["n"], "steps": steps, "windows": case["windows"],
                     "tol": case["tol"], "norm_err": m["norm"], "dE": m["dE"]}, nontrivial=True)
     if probe.worst > 1e-10:
         ctx.violation(f"operator handed to krylov_exp is not anti-Hermitian (relative defect {probe.worst:.3g})",
@@ -215,8 +223,8 @@ def check_case(ctx, case):
     if m["norm"] > lim_n:
         ctx.violation(f"{case['backend']}: state norm drifts by {m['norm']:.3g} (> {lim_n:.3g}) in a noiseless run",
                       {"case": _ser(case), "measured": m, "finding_key": "norm-not-conserved-" + case["backend"]})
-    if m["dE"] > lim_e or m["dE2"] > lim_e:
-        ctx.violation(f"{case['backend']}: energy / second moment drift {m['dE']:.3g} / {m['dE2']:.3g} (relative, > {lim_e:.3g}) "
+    if m["dE"] > lim_e or m["dE2"] > lim_e2:
+        ctx.violation(f"{case['backend']}: energy / second moment drift {m['dE']:.3g} / {m['dE2']:.3g} (relative, > {lim_e:.3g} / {lim_e2:.3g}) "
                       "inside a window of constant drive",
                       {"case": _ser(case), "measured": m, "finding_key": "energy-not-conserved-" + case["backend"]})
 
@@ -311,7 +319,7 @@ def check_switch_case(ctx, case):
         worst_c = max(worst_c, (max(ee) - min(ee)) / scale, (max(ee2) - min(ee2)) / scale ** 2)
         s = e_
     unit = steps * case["tol"]
-    lim_c = FLOOR + (SV_ENERGY if sv else MPS_ENERGY) * unit
+    lim_c = (FLOOR + SV_ENERGY * unit) if sv else (MPS_E2_FLOOR + MPS_ENERGY2 * unit)
     lim_d = (FLOOR + SW_SV_DENSE * unit) if sv else SW_MPS_DENSE
     cal = ctx.extra.setdefault("calibration", {})
     b = case["backend"]
@@ -531,6 +539,45 @@ def check_cap_case(ctx, case):
                       {"case": _ser(case), "second_moment": E2.tolist(), "finding_key": "second-moment-wrong-under-cap"})
 
 
+# ---- emu-mps: Hamiltonians whose MPO site operators are NOT real symmetric ------------------------------------------
+# XY (mw_global) exchange and Rydberg drives with a phase that is not a multiple of pi: a transposed site operator in
+# an environment (H^T in place of H) is invisible for real symmetric factors and breaks energy conservation here.
+def gen_sym_case(rng, tier_thorough, family, big=False):
+    xy = family == "xy"
+    if xy:
+        n = rng.choice([5, 6, 7, 8, 10]) if big else rng.choice([4, 5, 6, 7, 8, 10])
+    else:
+        n = rng.choice([4, 5, 6, 8, 10, 12] if tier_thorough or big else [4, 5, 6, 8])
+        if not big and rng.random() < 0.15:
+            n = 3
+    windows = rng.choice([1, 1, 2])
+    per = rng.randint(2, 4)
+    steps = windows * per
+    dt = rng.choice([5.0, 10.0, 20.0]) if xy else rng.choice([20.0, 40.0])
+    c = rng.choice([1.0, 2.0, 4.0]) if xy else rng.choice([2.0, 4.0, 8.0])
+    U = np.zeros((n, n))
+    for i in range(n):
+        for j in range(n):
+            if i != j:
+                U[i, j] = c / abs(i - j) ** (3 if xy else 6)
+    prob = dict(n=n, steps=steps, xy=xy, U=U, times=[k * dt for k in range(steps + 1)], omega=np.zeros((steps, n)),
+                delta=np.zeros((steps, n)), phi=np.zeros((steps, n)))
+    pm = rng.choice(["global", "local", "zero"]) if xy else rng.choice(["global", "local"])
+    for w in range(windows):
+        om = np.full(n, rng.uniform(2.0, 8.0) if xy else rng.uniform(4.0, 10.0))
+        de = np.full(n, rng.uniform(-4.0, 4.0))
+        if pm == "global":
+            ph = np.full(n, rng.choice([0.4, 1.0, 2.0, -1.3, 2.6]))
+        elif pm == "local":
+            ph = np.array([rng.uniform(0.2, 2.9) * rng.choice([-1, 1]) for _ in range(n)])
+        else:
+            ph = np.zeros(n)
+        for k in range(w * per, (w + 1) * per):
+            prob["omega"][k], prob["delta"][k], prob["phi"][k] = om, de, ph
+    return {"prob": prob, "windows": windows, "per": per, "backend": "mps", "family": family, "phase_mode": pm,
+            "tol": rng.choice([1e-5, 1e-7]) if xy else 1e-7, "seed": rng.randrange(2 ** 31)}
+
+
 def _ser(case):
     c = dict(case)
     c["prob"] = {k: (v.tolist() if hasattr(v, "tolist") else v) for k, v in case["prob"].items()}
@@ -564,6 +611,9 @@ def run(ctx):
         check_trunc_case(ctx, gen_trunc_case(ctx.rng, ctx.thorough()))
     for _ in range(ctx.n(8, 100)):
         check_cap_case(ctx, gen_cap_case(ctx.rng, ctx.thorough()))
+    nsym = ctx.n(12, 240)
+    for i in range(nsym):   # alternate XY / Rydberg-with-phase; the first ones of each family are forced to N >= 5
+        check_case(ctx, gen_sym_case(ctx.rng, ctx.thorough(), ["xy", "phase"][i % 2], big=i < 8))
     cal = ctx.extra.get("calibration", {})
     ok = all(v <= 1e-10 for k, v in cal.items() if k.endswith("antihermiticity_defect"))
     ctx.obligation("correspondence:captured krylov_exp operators of real runs are anti-Hermitian (random-vector probe)",
@@ -571,7 +621,10 @@ def run(ctx):
     ctx.rule = ("constant and piecewise-constant (1-3 windows of 2-5 steps) hand-built SequenceData, global or per-atom "
                 "drives with phases; emu-sv 2-12 atoms (random planar registers, krylov_tolerance 1e-8/1e-10), emu-mps "
                 "2-20 atoms (1D chains, 1/r^6 interactions, precision 1e-5/1e-7); Energy, EnergySecondMoment and "
-                "StateResult at every step boundary; every such case is non-trivial. Plus constant-drive runs (2-7 atom chains, "
+                "StateResult at every step boundary; every such case is non-trivial. Plus emu-mps families whose MPO site "
+                "operators are not real symmetric: XY (mw_global) chains of 4-10 atoms (1/r^3 exchange, dt 5-20 ns, phase zero / "
+                "global / per-atom) and Rydberg chains of 3-12 atoms with constant global or per-atom phases that are not "
+                "multiples of pi (dt 20-40 ns, precision 1e-7), 1-2 windows: energy and second moment per window. Plus constant-drive runs (2-7 atom chains, "
                 "both backends) whose interaction matrix switches once (rows/columns of 1-2 atoms zero before t_switch, "
                 "on a grid time or inside a step): energy and second moment constant inside every window of constant "
                 "(drive, matrix) and equal to the dense value of the window's Hamiltonian on the dense-evolved state; "
